@@ -1,9 +1,10 @@
 import TakVerif.Impl.MoveGen
 
 /-! Mirror of `ai/minimax.go`: `ttGet/ttPut`, `teSuffices`, `recordCut`, `nullMoveOK`, `pvSearch`,
-`zwSearch`, `Analyze`, `AnalyzeAll`, `GetMove`, after the two repairs
-`fixes/C05-reanalyze.diff` (an exact root entry also seeds the value) and
-`fixes/C05-stale-ttentry.diff` (the move generator keeps a copy of the table entry).
+`zwSearch`, `Analyze`, `AnalyzeAll`, `GetMove`, after the repairs
+`fixes/C05-reanalyze.diff` (an exact root entry also seeds the value),
+`fixes/C05-stale-ttentry.diff` (the move generator keeps a copy of the table entry) and
+`fixes/C04-randomize-scale.diff` (`GetMove` skips candidates whose random weight is not positive).
 
 Recursion: the Go search recurses with `ply+1` into the preallocated `stack [maxDepth]frame`; `ai.stack[ply]`
 panics for `ply = 15`.  The model recurses on the number of frames left (`search n` may use `n` more
@@ -504,6 +505,8 @@ def getMove [DecidableEq M] (g : Game P M) (cfg : Cfg) (o : Oracle M) (p : P) (s
                 if cv ≤ base then .ok (.next a, s)
                 else
                   let pts := Int.tdiv (cv - base) cfg.randomizeScale
+                  -- fixes/C04-randomize-scale.diff: candidates without positive weight are skipped
+                  if pts ≤ 0 then .ok (.next a, s) else
                   let i := a.i + pts
                   if i ≤ 0 then .error (.panic "rand.Int63n: invalid argument")
                   else
